@@ -77,24 +77,26 @@ def lastKey (es : List Entry) : Bytes := match es.getLast? with
   | some e => e.1
   | none => []
 
-/-- `Sub s d off flat`: the block at `off` is the root of a well-formed subtree of depth `d`
+/-- `Sub s lvl d off flat`: the block at `off` is the root of a well-formed subtree of depth `d`
     (`0` = data block) whose leaves concatenate to `flat`.  An index block maps the last key of
-    each child to the child's offset (u64 big-endian). -/
-inductive Sub (s : Store) : Nat → Nat → List Entry → Prop where
+    each child to the child's offset (u64 big-endian).  `lvl` labels every block offset with its
+    depth, so blocks of different depths never share an offset. -/
+inductive Sub (s : Store) (lvl : Nat → Nat) : Nat → Nat → List Entry → Prop where
   | leaf (off : Nat) (es : List Entry) :
-      s off = some es → es ≠ [] → Sub s 0 off es
+      s off = some es → es ≠ [] → lvl off = 0 → Sub s lvl 0 off es
   | node (d off : Nat) (kids : List (Nat × List Entry)) :
       kids ≠ [] →
       s off = some (kids.map (fun k => (lastKey k.2, be64 k.1))) →
-      (∀ k ∈ kids, Sub s d k.1 k.2) →
-      Sub s (d + 1) off (kids.flatMap (·.2))
+      lvl off = d + 1 →
+      (∀ k ∈ kids, Sub s lvl d k.1 k.2) →
+      Sub s lvl (d + 1) off (kids.flatMap (·.2))
 
 /-- A well-formed file over a store: root offset, number of index levels, and content.
-    The empty file has an empty root index block at every configured depth. -/
-def FileOK (s : Store) (root levels : Nat) (es : List Entry) : Prop :=
-  StrictAsc es ∧ (∀ e ∈ es, e.2.length < 2^32 ∧ e.1.length < 2^32) ∧
-  ((es = [] ∧ s root = some []) ∨ Sub s (levels + 1) root es) ∧
-  (∀ off es', s off = some es' → off < 2^64)
+    The empty file has an empty root index block (and nothing else is ever loaded). -/
+structure FileOK (s : Store) (root levels : Nat) (es : List Entry) : Prop where
+  asc    : StrictAsc es
+  tree   : (es = [] ∧ s root = some []) ∨ ∃ lvl, Sub s lvl (levels + 1) root es
+  blocks : ∀ off es', s off = some es' → StrictAsc es' ∧ off < 2^64
 
 /-- The reader cursor over an abstract store. -/
 def RC.stepA (s : Store) (fixF1 : Bool) : RC LC → Op → RC LC × Res :=
